@@ -41,11 +41,16 @@ probe() {
   if [ -n "${BRUSH_SAVE-}" ]; then save > "$D/$1.json" 2>/dev/null; fi
   echo "${#FUNCNAME[@]}" > "$D/$1.depth"
   jobs > "$D/$1.jobs" 2>&1
-  "$TOOLDIR/fdcount" -o "$D/$1.fdc" $$
-  "$TOOLDIR/msleep" 20
-  "$TOOLDIR/fdcount" -o "$D/$1.fdc" $$
-  "$TOOLDIR/msleep" 20
-  "$TOOLDIR/fdcount" -o "$D/$1.fdc" $$
+  # asynchronous clean-up (process substitutions, finished background tasks) may lag behind on a loaded machine: poll until two
+  # consecutive samples agree and show no zombie, for at most 15 s; the checker takes the minimum over the samples
+  _pi=0; _pb=
+  while [ $_pi -lt 150 ]; do
+    "$TOOLDIR/fdcount" -o "$D/$1.fdc" $$
+    _pa=$(tail -n 1 "$D/$1.fdc")
+    if [ $_pi -ge 2 ] && [ "$_pa" = "$_pb" ]; then case $_pa in *" zombies=0 "*) break;; esac; fi
+    _pb=$_pa; _pi=$((_pi+1))
+    "$TOOLDIR/msleep" 100
+  done
 }
 '''
 
